@@ -279,6 +279,11 @@ pub fn xfer(prop: &'static str, tier: Tier, w: &Arc<World>) -> Scn {
                 0 => {
                     xc.script.push((step, Adv::Silent));
                     conformant = false;
+                    // half of the dying peers close their socket: the server then sees ICMP port
+                    // unreachable (ConnectionRefused on its connected socket) instead of silence
+                    if d.chance("swarm.c07.icmp", 1, 2) {
+                        w.lock().icmp = true;
+                    }
                 }
                 1 => {
                     let code = d.range("swarm.c07.errcode", 8) as u16;
